@@ -398,6 +398,10 @@ func (m *DB) Update(db, coll string, filter, update, sortSpec bson.D, many, upse
 			return nil, err
 		}
 		doc := ur.Doc
+		// the _id the new document takes from the filter is immutable: an update that sets another one is rejected
+		if hasID(seed) && (!hasID(doc) || Cmp(idOf(doc), idOf(seed)) != 0) {
+			return nil, reject("update would modify the immutable field _id")
+		}
 		if !hasID(doc) {
 			doc = withID(doc, m.genID())
 		}
